@@ -171,6 +171,30 @@ CLAIMED.update({
             "DESIGN.md §3 C13"),
 })
 
+CLAIMED.update({
+    "C06": ("Sequential steps on the real protocol code: ids issued by get_next_system_counter are distinct and wrap at 2^32 for any "
+            "start value; inbound data messages are routed to exactly the outstanding request with equal system bytes, otherwise "
+            "delivered once and in arrival order (HSMS and SECS-I, arbitrary 32-bit system bytes); send_and_waitfor_response "
+            "registers its queue before the bytes leave and removes it after reply / send failure / timeout / foreign reply, and a "
+            "second requester never receives anything left over from the first transaction; ProtocolDispatcher start/stop sequences "
+            "(all of length <= 4, real threads) never leave more than one live consumer.",
+            "Trusted: CrossHair + chx; single-threaded rig (inline sender), T3 = 0 for timeouts. NOT covered: in-order/once delivery "
+            "under true preemption between the receiver, dispatcher and timer threads (queue.Queue / Event are C-level and are not "
+            "encoded); distinctness of ids when several threads call get_next_system_counter at once (no lock in the code; the "
+            "schedule encoding E3 for it is described in DESIGN.md §2.3).",
+            "DESIGN.md §3 C06"),
+    "C08": ("One inbound primary against the real handlers in COMMUNICATING state: every stream 0..127 and odd function (quick < 32), "
+            "W-bit, all 2^32 system bytes, built-in handlers / a user callback returning the secondary / raising / returning nothing; "
+            "and the same through the real HsmsProtocol down to the bytes on the connection (also after an own request timed out). "
+            "W-bit set => exactly one reply with the request's system bytes that is (s, f+1), (s, 0) or S9F5 carrying the offending "
+            "ten header bytes. Two open findings are excluded by predicate and re-proved each run: replies are also sent for primaries "
+            "without W-bit; no abort can be built for streams without a catalogued function 0.",
+            "Trusted: CrossHair + chx, oracles/refe37.py; communication state constructed; recording protocol stub or recording "
+            "connection with inline sender. Outside: bodies other than empty or the 14 well-formed samples, user callbacks that "
+            "return nothing for a W-bit primary.",
+            "DESIGN.md §3 C08"),
+})
+
 NOT_APPLICABLE = {
 }
 
